@@ -53,4 +53,12 @@ def db1 : Db :=
   { rows := db0.rows ++ [⟨7, 1, none, 2, 3, 3, 4⟩], edges := db0.edges ++ [⟨1, 0, 7, 2, 3⟩],
     nodeTombs := [], edgeTombs := [] }
 
+/-- the reference 1 → 0 stored at row 1 (of member 2) was added by member 3 -/
+def db2 : Db := { db0 with edges := [⟨1, 0, 0, 3, 3⟩] }
+
+/-- row 1 belongs to member 3 (own-rows right only); the reference 1 → 0 stored there was added by member 2 -/
+def db4 : Db :=
+  { rows := [⟨0, 1, some 0, 2, 2, 2, 1⟩, ⟨1, 1, some 0, 3, 2, 3, 2⟩], edges := [⟨1, 0, 0, 2, 3⟩],
+    nodeTombs := [], edgeTombs := [] }
+
 end Discret.LocalWrite
